@@ -369,8 +369,17 @@ class Engine:
         if isinstance(ty, TSeq) and isinstance(v.ty, TTuple) and all(e == ty.elem for e in v.ty.elems):
             items = [z3.Unit(v.ty.get(v.t, i)) for i in range(len(v.ty.elems))]
             return V(ty, z3.Concat(*items) if len(items) > 1 else (items[0] if items else z3.Empty(ty.sort())))
-        if isinstance(ty, TSeq) and isinstance(v.ty, TSeq) and isinstance(ty.elem, TOpt) and v.ty.elem == ty.elem.inner:
-            raise Unsupported('Seq[T] -> Seq[Opt[T]] coercion')
+        if isinstance(ty, TTuple) and isinstance(v.ty, TTuple) and len(ty.elems) == len(v.ty.elems):
+            items = [self.coerce(V(a, v.ty.get(v.t, i)), b, st).t for i, (a, b) in enumerate(zip(v.ty.elems, ty.elems))]
+            return V(ty, ty.mk(items))
+        if isinstance(ty, TSeq) and isinstance(v.ty, TSeq) and z3.is_expr(v.t):
+            # list literals ([a, b] / concatenations of them): element-wise
+            units = _literal_units(v.t)
+            if units is not None:
+                elems = [z3.Unit(self.coerce(V(v.ty.elem, u), ty.elem, st).t) for u in units]
+                if not elems:
+                    return V(ty, z3.Empty(ty.sort()))
+                return V(ty, z3.Concat(*elems) if len(elems) > 1 else elems[0])
         if ty is BOOL and v.ty is not BOOL:
             return V(BOOL, self.truthy(v))
         raise Unsupported(f'cannot coerce {v.ty} to {ty}')
@@ -452,3 +461,20 @@ class Engine:
                 return z3.Length(a.t) == 0
         # different types: never equal in Python for the value types we support
         return z3.BoolVal(False)
+
+
+def _literal_units(t):
+    k = t.decl().kind() if z3.is_app(t) else None
+    if k == z3.Z3_OP_SEQ_EMPTY:
+        return []
+    if k == z3.Z3_OP_SEQ_UNIT:
+        return [t.arg(0)]
+    if k == z3.Z3_OP_SEQ_CONCAT:
+        out = []
+        for c in t.children():
+            u = _literal_units(c)
+            if u is None:
+                return None
+            out.extend(u)
+        return out
+    return None
